@@ -153,6 +153,7 @@ type SiteStat struct {
 }
 
 type Result struct {
+	MapConflicts []MapConflict `json:"map_conflicts,omitempty"`
 	ID           string            `json:"id"`
 	Ops          []OpResult        `json:"ops"`
 	Steps        uint64            `json:"steps"`
@@ -199,4 +200,12 @@ func cloneSpec(s *Spec) *Spec {
 	var out Spec
 	json.Unmarshal(b, &out)
 	return &out
+}
+
+// MapConflict mirrors simrt.MapConflict: a map written by two tasks of one run, no lock held.
+type MapConflict struct {
+	SiteA int `json:"site_a"`
+	SiteB int `json:"site_b"`
+	TaskA int `json:"task_a"`
+	TaskB int `json:"task_b"`
 }
